@@ -436,13 +436,15 @@ def rule_r10(ctx):
 
 
 def rule_r11(ctx, rid="C04.R11"):
-    ctx.r.rule(rid, "line terminators between pipelined requests are not a request: in the head phase the parser marks itself completed only after parse_header ran (a request line was cracked or an error set) or after marking itself empty - the channel queues every completed parser that is not empty, and a parser with neither a head nor the mark would be executed and answered")
+    ctx.r.rule(rid, "line terminators between pipelined requests are not a request: in the head phase the parser marks itself completed only after parse_header ran, after storing an error, or after marking itself empty - the channel queues every completed parser that is not empty, and a parser with neither a head nor the mark would be executed and answered")
     p = ctx.p
     f = p.func("parser.HTTPRequestParser.received")
     g = cfg_of(f)
     stores = [n for n in g.nodes if n.kind == "stmt" and isinstance(n.ast, ast.Assign) and any(dotted(t) == "self.completed" for t in n.ast.targets) and isinstance(n.ast.value, ast.Constant) and n.ast.value.value is True]
     parses = [n for n, c in find_calls(g, lambda c: dotted(c.func) == "self.parse_header")]
     parses += [h for h in g.nodes if h.kind == "handler"]  # entered only from the try around parse_header
+    # a refusal is a verdict too: the error task answers it (C06)
+    parses += [n for n in g.nodes if n.kind == "stmt" and isinstance(n.ast, ast.Assign) and any(dotted(t) == "self.error" for t in n.ast.targets) and isinstance(n.ast.value, ast.Call)]
     empt = [n for n in g.nodes if n.kind == "stmt" and isinstance(n.ast, ast.Assign) and any(dotted(t) == "self.empty" for t in n.ast.targets) and isinstance(n.ast.value, ast.Constant) and n.ast.value.value is True]
     body = [b for b in g.nodes if b.kind == "branch" and isinstance(b.ast, ast.Compare) and dotted(b.ast.left) in ("br", "self.body_rcv") and isinstance(b.ast.comparators[0], ast.Constant) and b.ast.comparators[0].value is None
             and ((isinstance(b.ast.ops[0], ast.Is) and not b.polarity) or (isinstance(b.ast.ops[0], ast.IsNot) and b.polarity))]
